@@ -154,7 +154,9 @@ impl Context {
     pub fn replace_all(&self, s: &str) -> String {
         let mut res = String::from(s);
         let mut changed;
-        loop {
+        // A macro that (directly or not) expands to itself would be replaced forever: stop
+        // when a pass changes nothing, and after a fixed number of passes in any case
+        for _ in 0..64 {
             changed = false;
             for (i, set) in self.regex_sets.iter().enumerate() {
                 for idx in set.matches(s).into_iter() {
@@ -162,8 +164,10 @@ impl Context {
                         .0
                         .replace_all(&res, &self.regexes[i][idx].1);
                     if let Cow::Owned(z) = x {
+                        if z != res {
+                            changed = true;
+                        }
                         res = z.to_string();
-                        changed = true;
                     }
                 }
             }
